@@ -200,7 +200,17 @@ def one_roundtrip(ctx, app, seen, rng, pairs, exp, enc, mode, wit):
                                content_type='application/x-www-form-urlencoded')
             ctx.count('chunked_forms')
         else:
-            env = make_environ('POST', '/q', stream=RecStream(body, ('rand', rng)), content_length=len(body),
+            st = RecStream(body, ('rand', rng))
+            sel = (len(body) + len(pairs)) % 6
+            if sel < 3:
+                # the whole form in one read, handed out as bytes / bytearray / a view of the server's receive buffer
+                st = RecStream(body, 'full')
+                if sel == 1:
+                    st.as_bytearray()
+                elif sel == 2:
+                    st.as_reused_buffer_view()
+                ctx.count('form_delivered_in_a_single_read')
+            env = make_environ('POST', '/q', stream=st, content_length=len(body),
                                content_type=rng.choice(['application/x-www-form-urlencoded', 'application/x-www-form-urlencoded; charset=utf-8', '']) or None)
         rq = ombott.Request(env, config={'max_memfile_size': MEMFILE[0]})
         _cmp(ctx, 'Request.forms', rq.forms, exp, wit)
